@@ -277,6 +277,71 @@ class CellSim(object):
                 self.op_app(alloc_i, aff_i, demand, 1, 0, None, None, 0,
                             False)
 
+    # -- rack-local shifts (aimed): the largest server of a rack fails, a
+    # smaller one joins, work lands on what is left
+    def _rack_ups(self, idx, least=1):
+        racks = []
+        for ridx, rack in enumerate(self.racks):
+            ups = [node for node in rack.children_iter()
+                   if node.state is scheduler.State.up and
+                   node.name in self.decl_servers]
+            if len(ups) >= least:
+                racks.append((ridx, ups))
+        if not racks:
+            return None, []
+        return racks[idx % len(racks)]
+
+    def _room(self, server):
+        room = list(self.decl_servers[server.name]['cap'])
+        for other in server.apps:
+            for dim in range(3):
+                room[dim] -= self.decl_apps[other]['demand'][dim]
+        return [max(0, int(r)) for r in room]
+
+    def op_downbig(self, idx):
+        ridx, ups = self._rack_ups(idx, least=2)
+        if ridx is None:
+            return self.op_down(idx)
+        self.last_rack = ridx
+        big = max(ups, key=lambda srv: (sum(self._room(srv)), srv.name))
+        return self._down(big)
+
+    def op_srvsmall(self, idx, shrink):
+        ridx = getattr(self, 'last_rack', None)
+        ups = []
+        if ridx is not None:
+            ups = [node for node in self.racks[ridx].children_iter()
+                   if node.state is scheduler.State.up and
+                   node.name in self.decl_servers]
+        if not ups:
+            ridx, ups = self._rack_ups(idx)
+        if ridx is None:
+            return None
+        self.last_rack = ridx
+        rooms = [self._room(srv) for srv in ups]
+        cap = [max(1, min(room[dim] for room in rooms) - shrink)
+               for dim in range(3)]
+        sdecl = self.decl_servers[ups[0].name]
+        return self.add_server(ridx, {'cap': cap, 'traits': sdecl['traits'],
+                                      'part': int(sdecl['label'][4:]),
+                                      'age': 0})
+
+    def op_appbig(self, idx, leave):
+        ridx = getattr(self, 'last_rack', None)
+        ups = []
+        if ridx is not None:
+            ups = [node for node in self.racks[ridx].children_iter()
+                   if node.state is scheduler.State.up and
+                   node.name in self.decl_servers]
+        if not ups:
+            ridx, ups = self._rack_ups(idx)
+        if ridx is None:
+            return None
+        big = max(ups, key=lambda srv: (sum(self._room(srv)), srv.name))
+        demand = [max(0, r - leave) for r in self._room(big)]
+        part = int(self.decl_servers[big.name]['label'][4:])
+        return self.op_app(part, idx, demand, 1, 0, None, None, 0, False)
+
     def op_srv(self, rack_idx, spec):
         self.add_server(rack_idx, spec)
 
